@@ -70,7 +70,7 @@ pub fn export() -> Result<()> {
     let wallet_private_key = select_wallet_private_key()?;
 
     let wallet_address = Wallet::new_from_private_key(DUMMY_NETWORK, &wallet_private_key)
-        .expect("Infallible")
+        .map_err(|_| eyre!("The selected wallet file does not hold a valid private key"))?
         .address()
         .to_string();
 
